@@ -167,6 +167,12 @@ class Cfg:
 
 
 def cfg_of(facts, name):
+    # a function whose whole body is one call of a new private helper (twin functions merged into a shared helper): the code the
+    # rule is about lives in the helper now
+    seen = set()
+    while name in getattr(facts, 'delegates', {}) and name not in seen:
+        seen.add(name)
+        name = facts.delegates[name]
     m = facts.mir.get(name)
     if m is None:
         raise AnalysisIncomplete(f'anchor `{name}` has no MIR in configuration `{facts.config}`')
